@@ -1,4 +1,6 @@
 
+val xorb : bool -> bool -> bool
+
 val negb : bool -> bool
 
 type nat =
@@ -20,13 +22,21 @@ type comparison =
 
 val compOpp : comparison -> comparison
 
+val pred : nat -> nat
+
 val add : nat -> nat -> nat
 
 val mul : nat -> nat -> nat
 
 val sub : nat -> nat -> nat
 
-val eqb : bool -> bool -> bool
+val eqb : nat -> nat -> bool
+
+val leb : nat -> nat -> bool
+
+val ltb : nat -> nat -> bool
+
+val eqb0 : bool -> bool -> bool
 
 module Nat :
  sig
@@ -39,6 +49,8 @@ module Nat :
   val ltb : nat -> nat -> bool
 
   val max : nat -> nat -> nat
+
+  val even : nat -> bool
 
   val divmod : nat -> nat -> nat -> nat -> nat * nat
 
@@ -148,6 +160,8 @@ module N :
   val eqb : n -> n -> bool
 
   val leb : n -> n -> bool
+
+  val ltb : n -> n -> bool
 
   val div2 : n -> n
 
@@ -401,6 +415,28 @@ val g_TunnelPassword : guard list
 val g_UserPassword : guard list
 
 val g_VendorSpecific : guard list
+
+val b_rfc2759_magic1 : n list
+
+val b_rfc2759_magic2 : n list
+
+val g_rfc2759_DESCrypt : guard list
+
+val k_rfc3079_KeyLength128Bit : z
+
+val b_rfc3079_shaPad1 : n list
+
+val b_rfc3079_shaPad2 : n list
+
+val b_rfc3079_magic1 : n list
+
+val b_rfc3079_magic2 : n list
+
+val b_rfc3079_magic3 : n list
+
+val g_rfc3079_GetAsymmetricStartKey : guard list
+
+val g_rfc3079_MakeKey : guard list
 
 val k_dictionary_AttributeOctets : z
 
@@ -831,6 +867,100 @@ val merge : bool -> heap -> pdict -> pdict -> (heap * pdict) res
 
 val load : heap -> dict -> heap * pdict
 
+val popcount : n -> nat
+
+val parity_pad : bytes -> bytes
+
+val des_crypt : (bytes -> bytes -> bytes) -> bytes -> bytes -> bytes
+
+val challenge_hash : (bytes -> bytes) -> bytes -> bytes -> bytes -> bytes
+
+val nt_password_hash : (bytes -> bytes) -> bytes -> bytes
+
+val challenge_response : (bytes -> bytes -> bytes) -> bytes -> bytes -> bytes
+
+val generate_nt_response :
+  (bytes -> bytes) -> (bytes -> bytes) -> (bytes -> bytes) -> (bytes -> bytes
+  -> bytes) -> bytes -> bytes -> bytes -> bytes -> bytes
+
+val hex_upper_digit : n -> n
+
+val hex_upper : bytes -> bytes
+
+val generate_authenticator_response :
+  (bytes -> bytes) -> (bytes -> bytes) -> (bytes -> bytes) -> bytes -> bytes
+  -> bytes -> bytes -> bytes -> bytes
+
+val get_master_key : (bytes -> bytes) -> bytes -> bytes -> bytes
+
+val get_asymmetric_start_key :
+  (bytes -> bytes) -> bytes -> nat -> bool -> bytes res
+
+val make_key :
+  (bytes -> bytes) -> (bytes -> bytes) -> (bytes -> bytes) -> bytes -> bytes
+  -> bool -> bytes res
+
+val txt : string -> bytes
+
+val rfc_magic1 : bytes
+
+val rfc_magic2 : bytes
+
+val rfc_mppe_magic1 : bytes
+
+val rfc_mppe_magic2 : bytes
+
+val rfc_mppe_magic3 : bytes
+
+val rfc_shspad1 : bytes
+
+val rfc_shspad2 : bytes
+
+val digit128 : bytes -> nat -> n
+
+val ones : n -> nat
+
+val with_odd_parity : n -> n
+
+val rfc_des_key : bytes -> bytes
+
+val rfc_des_encrypt : (bytes -> bytes -> bytes) -> bytes -> bytes -> bytes
+
+val rfc_challenge_hash : (bytes -> bytes) -> bytes -> bytes -> bytes -> bytes
+
+val rfc_nt_password_hash : (bytes -> bytes) -> bytes -> bytes
+
+val rfc_challenge_response :
+  (bytes -> bytes -> bytes) -> bytes -> bytes -> bytes
+
+val rfc_generate_nt_response :
+  (bytes -> bytes) -> (bytes -> bytes) -> (bytes -> bytes) -> (bytes -> bytes
+  -> bytes) -> bytes -> bytes -> bytes -> bytes -> bytes
+
+val up_hex : n -> n
+
+val rfc_hex : bytes -> bytes
+
+val rfc_generate_authenticator_response :
+  (bytes -> bytes) -> (bytes -> bytes) -> (bytes -> bytes) -> bytes -> bytes
+  -> bytes -> bytes -> bytes -> bytes
+
+val rfc_get_master_key : (bytes -> bytes) -> bytes -> bytes -> bytes
+
+val rfc_get_asymmetric_start_key :
+  (bytes -> bytes) -> bytes -> nat -> bool -> bytes
+
+val rfc_make_key :
+  (bytes -> bytes) -> (bytes -> bytes) -> (bytes -> bytes) -> bytes -> bytes
+  -> bool -> bytes
+
+val spec_get_asymmetric_start_key :
+  (bytes -> bytes) -> bytes -> nat -> bool -> bytes res
+
+val spec_make_key :
+  (bytes -> bytes) -> (bytes -> bytes) -> (bytes -> bytes) -> bytes -> bytes
+  -> bool -> bytes res
+
 type key = n * n
 
 val key_eqb : key -> key -> bool
@@ -1203,6 +1333,198 @@ val md5_serialize : md5_state -> n list
 
 val md5 : n list -> n list
 
+val sha1_mask32 : n
+
+val sha1_add32 : n -> n -> n
+
+val sha1_not32 : n -> n
+
+val sha1_rotl32 : n -> n -> n
+
+val sha1_byte0 : n -> n
+
+val sha1_byte1 : n -> n
+
+val sha1_byte2 : n -> n
+
+val sha1_byte3 : n -> n
+
+val sha1_word_be : n -> n -> n -> n -> n
+
+val sha1_words_be : n list -> n list
+
+val sha1_pad_zeros : n -> nat
+
+val sha1_len_bytes_be : n -> n list
+
+val sha1_pad : n list -> n list
+
+type sha1_state = (((n * n) * n) * n) * n
+
+val sha1_init_state : sha1_state
+
+val sha1_ch : n -> n -> n -> n
+
+val sha1_parity : n -> n -> n -> n
+
+val sha1_maj : n -> n -> n -> n
+
+val sha1_schedule : nat -> n list -> n list
+
+val sha1_f : nat -> n -> n -> n -> n
+
+val sha1_k : nat -> n
+
+val sha1_step : nat -> sha1_state -> n -> sha1_state
+
+val sha1_rounds : nat -> n list -> sha1_state -> sha1_state
+
+val sha1_compress : sha1_state -> n list -> sha1_state
+
+val sha1_process : nat -> sha1_state -> n list -> sha1_state
+
+val sha1_serialize : sha1_state -> n list
+
+val sha1 : n list -> n list
+
+val md4_mask32 : n
+
+val md4_add32 : n -> n -> n
+
+val md4_not32 : n -> n
+
+val md4_rotl32 : n -> n -> n
+
+val md4_byte0 : n -> n
+
+val md4_byte1 : n -> n
+
+val md4_byte2 : n -> n
+
+val md4_byte3 : n -> n
+
+val md4_word_le : n -> n -> n -> n -> n
+
+val md4_words_le : n list -> n list
+
+val md4_pad_zeros : n -> nat
+
+val md4_len_bytes_le : n -> n list
+
+val md4_pad : n list -> n list
+
+type md4_state = ((n * n) * n) * n
+
+val md4_init_state : md4_state
+
+val md4_fF : n -> n -> n -> n
+
+val md4_fG : n -> n -> n -> n
+
+val md4_fH : n -> n -> n -> n
+
+val md4_step :
+  (n -> n -> n -> n) -> n -> n list -> md4_state -> (nat * n) -> md4_state
+
+val md4_steps1 : (nat * n) list
+
+val md4_steps2 : (nat * n) list
+
+val md4_steps3 : (nat * n) list
+
+val md4_compress : md4_state -> n list -> md4_state
+
+val md4_process : nat -> md4_state -> n list -> md4_state
+
+val md4_serialize : md4_state -> n list
+
+val md4 : n list -> n list
+
+val des_byte_bits : n -> bool list
+
+val des_bits_of_bytes : n list -> bool list
+
+val des_bits_to_N : bool list -> n
+
+val des_byte_at : bool list -> nat -> n
+
+val des_permute : nat list -> bool list -> bool list
+
+val des_xor : bool list -> bool list -> bool list
+
+val des_rotl : nat -> bool list -> bool list
+
+val des_IP : nat list
+
+val des_FP : nat list
+
+val des_E : nat list
+
+val des_P : nat list
+
+val des_PC1 : nat list
+
+val des_PC2 : nat list
+
+val des_shifts : nat list
+
+val des_S1 : n list
+
+val des_S2 : n list
+
+val des_S3 : n list
+
+val des_S4 : n list
+
+val des_S5 : n list
+
+val des_S6 : n list
+
+val des_S7 : n list
+
+val des_S8 : n list
+
+val des_SBOXES : n list list
+
+val des_nibble_bits : n -> bool list
+
+val des_b2n : bool -> nat -> nat
+
+val des_sboxes : n list list -> bool list -> bool list
+
+val des_f : bool list -> bool list -> bool list
+
+val des_subkeys_from : nat list -> bool list -> bool list -> bool list list
+
+val des_subkeys : bool list -> bool list list
+
+val des_rounds :
+  bool list list -> bool list -> bool list -> bool list * bool list
+
+val des_block_bits : bool list list -> bool list -> bool list
+
+val des_serialize : bool list -> n list
+
+val des_encrypt : n list -> n list -> n list
+
+val utf16_rune_error : n
+
+val utf16_in_range : n -> n -> n -> bool
+
+val utf16_cont : n -> bool
+
+val utf16_invalid : n * nat
+
+val utf16_decode : n -> n list -> n * nat
+
+val utf16_unit_le : n -> n list
+
+val utf16_emit : n -> n list
+
+val utf16_go : nat -> n list -> n list
+
+val utf8_to_utf16le : n list -> n list
+
 type tok =
 | TI of z
 | TB of bytes
@@ -1312,5 +1634,9 @@ val load_all : heap -> bytes list -> (heap * pdict list) option
 val chain : bool -> heap -> pdict -> pdict list -> (heap * pdict) res
 
 val dispatch_merge : bytes -> bytes list -> z list -> tok list option
+
+val b5 : bytes list -> bytes
+
+val dispatch_mschap : bytes -> bytes list -> z list -> tok list option
 
 val dispatch : bytes -> bytes list -> z list -> tok list
